@@ -18,6 +18,13 @@ def main():
 
     with open(inp) as f:
         job = json.load(f)
+    if job.get("mode") == "simulate_given_init":
+        spec = Spec.from_json(job["spec"])
+        init = {k: np.asarray(v) for k, v in job["init"].items()}
+        fns = simcheck.get_functions(spec, targets=("solve_and_simulate",))
+        df = simcheck.simulate(fns, spec, init, job["seed"])
+        np.savez(outp, **{"col_" + c: np.asarray(df[c]) for c in df.columns})
+        return
     spec = variant_spec(Spec.from_json(job["spec"]), job["variant"])
     ref = Reference(spec)
     init = materialise_agents(spec, ref, job["agents"])
